@@ -103,6 +103,12 @@ def run_harness(spec, target_dir):
         out, _ = p.communicate()
         timed_out = True
     wall = time.time() - t0
+    if spec.get('log'):
+        try:
+            with open(spec['log'], 'w', encoding='utf8') as f:
+                f.write(out)
+        except OSError:
+            pass
     r = parse_kani_output(out)
     r['name'] = spec['name']
     r['wall'] = round(wall, 1)
